@@ -38,10 +38,10 @@ m = {
         "add_only": True,
     },
     "engines": [{"name": "vh", "path": "/verif/harness/vh", "serves_properties": [c["property_id"] for c in checks],
-                 "kind_free_text": "Rust harness: seeded workload generators, hook runtime (event log, gates, random holds), logging doubles, reference models and offline history checkers; built native / ASan / Miri (/ TSan) by ./check"}],
+                 "kind_free_text": "Rust harness: seeded workload generators, hook runtime (event log, gates, random holds), logging doubles, reference models and offline history checkers; built native / ASan / TSan / Miri by ./check, native binary also run under valgrind memcheck"}],
     "checks": checks,
     "not_applicable": na,
-    "notes": "All checks are runtime monitoring: real code driven by seeded hostile workloads with oracles over recorded histories; sanitizer/Miri legs re-run the same workloads. Verdicts are 'held on what was observed'. See DESIGN.md.",
+    "notes": "All checks are runtime monitoring: real code driven by seeded hostile workloads with oracles over recorded histories; sanitizer / Miri / valgrind-memcheck legs re-run the same workloads. Verdicts are 'held on what was observed'. See DESIGN.md.",
 }
 json.dump(m, open(os.path.join(ROOT, "MANIFEST.json"), "w"), indent=1)
 print(f"MANIFEST.json: {len(checks)} checks, {len(na)} not_applicable")
